@@ -54,6 +54,11 @@ def encoder_alphabet(F, S, rep=None):
                 if f.locals[l]["ty"] == "u8":
                     env[n] = set(S)          # a u8 parameter of an emitter is a symbol (checked at call sites below)
             vs = symbols.valset(e, env)
+            if vs is None:
+                # bound the opaque variables by the guards that dominate the push (`x < 10`, `x < 100`, ...)
+                env2 = dict(env)
+                env2.update(symbols.guard_env(f, bi, ex, e))
+                vs = symbols.valset(e, env2)
             sites.append((f, t, e, vs))
         # in-place rewrite through index_mut: (*ptr) = const
         for bi, b in enumerate(f.blocks):
@@ -555,20 +560,33 @@ def alpha_rules(F, rep, pid):
     if not rep.floor(R, len(sites or []), 8, "bytes appended by the LZ encoder (push / rewrite sites)"):
         return None
     lit, other, undec = set(), set(), []
+    numeric = set()
     for f, where, e, vs in sites:
         if vs is None:
             undec.append((f, where, e))
             continue
         dep = contains(e, lambda x: isinstance(x, tuple) and x[0] == "param" and x[1] != "self")
-        if dep and any(isinstance(x, tuple) and x[0] == "bin" and x[1] == "Rem" for x in walk(e)):
+        # a literal is a byte computed from a *symbol* (a u8 parameter of the emitter); bytes computed from numbers
+        # (positions, lengths: wider integer parameters and the locals derived from them) are digits of the number text
+        u8params = {n for l, n in f.arg_names().items() if f.locals[l]["ty"] == "u8"}
+        from_symbol = contains(e, lambda x: isinstance(x, tuple) and x[0] == "param" and x[1] in u8params)
+        if dep and not from_symbol:
+            other |= vs
+            numeric |= vs
+        elif dep and any(isinstance(x, tuple) and x[0] == "bin" and x[1] == "Rem" for x in walk(e)):
             other |= vs
         elif dep:
             lit |= vs
         else:
             other |= vs
-    for f, where, e, vs in undec:
+    for f, where, e in undec:
         rep.ob(R, "encoder byte %s in %s has a decidable value set" % (fmt(e), f.key.rsplit("::", 1)[-1]), False,
                detail="undecidable construct", site=site_of(f, where), key="%s | %s | undecidable byte %s" % (R, f.key, fmt(e)))
+    # the decoder reads numbers as ASCII decimal: every byte computed from a number is a digit (or the sign)
+    strange = sorted(v for v in numeric if not (48 <= v <= 57 or v == 45))
+    rep.ob(R, "every byte the encoder computes from a number is a decimal digit (or '-')", not strange,
+           detail="%d number bytes" % len(numeric) if not strange else "number text can contain %s: the decoder's decimal parser does not read them back" % [chr(v) if 32 <= v < 127 else v for v in strange],
+           key=R + " | number bytes are digits")
     rep.stat("encoder_literal_bytes", sorted(lit))
     rep.stat("encoder_other_bytes", sorted(other))
     # u8 parameters of emitters receive symbols of the target only
